@@ -34,6 +34,9 @@ func init() {
 
 var c09Mods = []string{"ps", "pe-coff", "msi", "cat", "jar", "apk", "xap", "appx", "cab", "dmg", "xar", "deb", "rpm", "pgp", "appmanifest", "bigjar", "bigapk"}
 
+// modules whose client-side transform is produced by a goroutine of its own
+var pipeTransform = map[string]bool{"msi": true, "jar": true, "apk": true, "xap": true, "appx": true, "dmg": true, "xar": false}
+
 // splitReader hands a stream out in tape-chosen pieces.
 type splitReader struct {
 	r io.Reader
@@ -183,6 +186,38 @@ func c09Splits(r *core.Run) {
 			return
 		}
 		stream := streams[0]
+
+		// --- 1b. transforms that run their own producer goroutine (zip, msi,
+		// dmg ... behind an io.Pipe that nothing ever closes) must not disturb
+		// each other: during fail-over the abandoned attempt's stream is still
+		// being drained (the server keeps reading after an early 503) while
+		// the next attempt transforms the same file
+		if pipeTransform[c.Mod] {
+			rdA, errA := tr.GetReader()
+			must(errA)
+			head, err := readAllSplit(rdA, t, 1+t.Choose(2048, "overlap-head"))
+			must(err)
+			rdB, errB := tr.GetReader()
+			must(errB)
+			var restA, allB []byte
+			var eA, eB error
+			dA, dB := make(chan struct{}), make(chan struct{})
+			w.Sched.Go("drain-old", func() { restA, eA = readAllSplit(rdA, t, -1); close(dA) })
+			w.Sched.Go("drain-new", func() { allB, eB = readAllSplit(rdB, t, -1); close(dB) })
+			world.Recv(w, dA)
+			world.Recv(w, dB)
+			r.Fault("overlapping-transform-readers")
+			if eA != nil || eB != nil {
+				r.Failf("C09.transform-not-repeatable", c.Mod+"/overlap-error", "reading two overlapping transform streams failed: %v / %v", eA, eB)
+			} else {
+				if !bytes.Equal(allB, stream) {
+					r.Failf("C09.transform-not-repeatable", c.Mod+"/overlap", "the %s transform read while an earlier one was still being drained yields different bytes (%d vs %d, first difference at %d)", c.Mod, len(allB), len(stream), firstDiff(allB, stream))
+				}
+				if a := append(head, restA...); !bytes.Equal(a, stream) {
+					r.Failf("C09.transform-not-repeatable", c.Mod+"/overlap-old", "the earlier %s transform stream was disturbed by a later one (%d vs %d bytes, first difference at %d)", c.Mod, len(a), len(stream), firstDiff(a, stream))
+				}
+			}
+		}
 
 		// --- 2. submissions: read splits x request/response encodings ---
 		for i := 0; i < nsubmit; i++ {
